@@ -308,6 +308,13 @@ func HConcurrent() {
 		c2 = nd.Bytes("c2", nd.Param("CLEN", 2))
 	}
 	FS.sameRand = nd.Choose("collide", 2) == 1 // both writers draw the same staging name first
+	// the second writer may be another Store value opened on the same directory (another process)
+	st2 := st
+	if !sameKey && !FS.sameRand && nd.Choose("twostores", 2) == 1 {
+		var other Store
+		nd.Assert(other.InitDefaults("/b") == nil, "a second Store opens the same directory")
+		st2 = &other
+	}
 	// preemption bounding: control is taken away from a running thread at most PREEMPT times per
 	// schedule (at any file-system step); when a thread ends, any other thread may continue
 	budget := nd.Param("PREEMPT", 2)
@@ -319,7 +326,7 @@ func HConcurrent() {
 	}
 	var e1, e2 error
 	nd.Go(func() { e1 = st.Put(ctx, k1, content) })
-	nd.Go(func() { e2 = st.Put(ctx, k2, c2) })
+	nd.Go(func() { e2 = st2.Put(ctx, k2, c2) })
 	nd.Go(func() {
 		// the reader: whenever it sees a key, the content is complete
 		for i := 0; i < nd.Param("READS", 2); i++ {
